@@ -126,6 +126,37 @@ func (x *Exec) verifyFunc(key string) (err error) {
 			}
 		}
 	}
+	if con != nil {
+		for _, gs := range con.GhostSets {
+			env := x.envFor(fr, st, nil, "requires")
+			var gv Val
+			func() {
+				defer func() {
+					if r := recover(); r != nil {
+						if ee, ok := r.(evalError); ok {
+							err = fmt.Errorf("%s: ghostset %s: %s", key, gs.Name, ee.msg)
+							return
+						}
+						panic(r)
+					}
+				}()
+				x.quiet++
+				defer func() { x.quiet-- }()
+				gv = env.eval(gs.Expr)
+			}()
+			if err != nil {
+				return err
+			}
+			ty := x.Lib.Ghosts[gs.Name]
+			t, gsrt := x.resolveType(x.Lib.GhostPkg[gs.Name], ty)
+			srt := gsrt
+			if srt == "" {
+				srt = x.C.sortOf(t)
+			}
+			x.heap(st, "ghost:"+gs.Name, srt)
+			x.setHeap(st, "ghost:"+gs.Name, srt, gv.Term)
+		}
+	}
 	// global axioms
 	for _, ax := range x.Lib.Axioms {
 		env := &Env{x: x, st: st, names: map[string]Val{}, bound: map[string]Val{}, pkg: x.Lib.AxPkg[ax]}
@@ -214,8 +245,12 @@ func (x *Exec) envFor(fr *Frame, st *State, results []Val, where string) *Env {
 		for n, v := range fr.params {
 			env.onames[n] = v
 		}
+		env.addrs = map[string]Val{}
 		for name, allocs := range fr.names {
 			for i, a := range allocs {
+				if pv, ok := st.regs[cellKey{fr.id, a}]; ok && pv.Loc == nil && pv.Term != "" && i == 0 {
+					env.addrs[name] = pv
+				}
 				v, ok := x.cellValue(st, fr, a.(*ssa.Alloc))
 				if !ok {
 					continue
@@ -453,7 +488,11 @@ func (x *Exec) loopMods(fr *Frame, li *loopInfo) *modSet {
 					}
 					continue
 				}
-				m.union(x.calleeModSet(cc, x.mods))
+				cm := x.calleeModSet(cc, x.mods)
+				if cm.all && !m.all {
+					m.why = " (in loop: " + cc.String() + ")"
+				}
+				m.union(cm)
 			}
 		}
 	}
@@ -464,7 +503,7 @@ func (x *Exec) loopMods(fr *Frame, li *loopInfo) *modSet {
 // havocked completely; the others keep their contents below the allocation frontier of pre.
 func (x *Exec) applyMods(st *State, pre *State, ms *modSet, full map[string]bool) {
 	if ms.all {
-		x.abstr["call with unknown effects"] = true
+		x.abstr["call with unknown effects"+ms.why] = true
 		st.taint = true
 		for name := range x.heapSort {
 			if !strings.HasPrefix(name, "ghost:") {
